@@ -6,7 +6,7 @@
 From Coq Require Import List ZArith Bool Arith.
 Import ListNotations.
 From RV Require Import Gen.GenTermination Model.Retry Model.Machine Proofs.MachineP.
-From RV Require Import Gen.GenFacts.
+From RV Require Import Gen.GenFactsPersist.
 
 (** Any two orders that finish run r leave it in the same state (same invocations recorded, same
     failure counters, same samples) and produce the same sequence of process starts and recordings
